@@ -199,7 +199,7 @@ pub fn main(args: &[String]) -> i32 {
                 threads: arg(args, "--threads").and_then(|s| s.parse().ok()).unwrap_or(16),
                 max_secs: arg(args, "--max-secs").and_then(|s| s.parse().ok()).unwrap_or(3600.0),
                 stop_on_violation: args.iter().any(|a| a == "--stop"),
-                focus: None,
+                focus: arg(args, "--focus").and_then(|f| crate::mon::verdict::ALL_PROPS.iter().find(|x| **x == f).cloned()),
                 stop_after: 0,
                 known_sigs: Vec::new(),
             };
